@@ -173,6 +173,14 @@ type Faults struct {
 	Replay bool           `json:"replay"` // the environment acts only as scripted (no spontaneous growth / integration)
 }
 
+func cloneFaults(f Faults) Faults {
+	b, _ := json.Marshal(f)
+	var g Faults
+	_ = json.Unmarshal(b, &g)
+	g.init()
+	return g
+}
+
 func (f *Faults) init() {
 	if f.Fetch == nil {
 		f.Fetch = map[string][]int{}
@@ -204,6 +212,7 @@ type World struct {
 	P    *Pool
 	C    Cfg
 	F    Faults
+	F0   Faults // as scripted (F is consumed)
 	Rec  *vh.Recorder
 	Rep  *vh.Report
 	T    int // trace number
@@ -238,6 +247,7 @@ type World struct {
 	anyTerminal  bool // ... in any pass
 	lastIdle    bool // the last pass saw an STH not larger than its position (nothing to do)
 	events      int
+	badRange    int
 	addOK       int
 	kinds       map[string]bool
 }
@@ -245,7 +255,7 @@ type World struct {
 // NewWorld creates the scenario.
 func NewWorld(p *Pool, c Cfg, f Faults, rec *vh.Recorder, rep *vh.Report, t int) *World {
 	f.init()
-	w := &World{P: p, C: c, F: f, Rec: rec, Rep: rep, T: t, srcSize: c.Src0, dest: map[int64]*stored{}, destInt: c.DestInt,
+	w := &World{P: p, C: c, F: f, F0: cloneFaults(f), Rec: rec, Rep: rep, T: t, srcSize: c.Src0, dest: map[int64]*stored{}, destInt: c.DestInt,
 		master: true, mwait: make(chan struct{}), sthSize: -1, quotaOpen: map[string]int{}, quotaAt: map[string]time.Time{}, kinds: map[string]bool{}}
 	close(w.mwait)
 	for i := 0; i < c.DestLen; i++ {
@@ -317,7 +327,7 @@ func (w *World) emit(ev map[string]any) {
 }
 
 func (w *World) ctxt() map[string]any {
-	return map[string]any{"cfg": w.C, "faults": w.F, "trace": w.T, "seed": w.Seed}
+	return map[string]any{"cfg": w.C, "faults": w.F0, "trace": w.T, "seed": w.Seed}
 }
 
 func pop[T any](m map[string][]T, key string) (T, bool) {
@@ -501,6 +511,11 @@ func (w *World) getEntries(start, end int) (int, []byte) {
 	}
 	if start < 0 || start >= w.srcSize {
 		w.emit(map[string]any{"ev": "Fetch", "start": start, "end": reqEnd, "code": "ERR", "n": 0})
+		// the fetcher retries such a request at once and for ever: stop a runaway run (counted, not timed)
+		if w.badRange++; w.badRange == 50 {
+			w.Rep.Violate("fetch:runaway-beyond-source", fmt.Sprintf("get-entries starting at %d asked 50 times although the source (size %d) has no such entry", start, w.srcSize), w.ctxt())
+			w.envLocked("cancel")
+		}
 		return 400, []byte("bad range")
 	}
 	if end >= w.srcSize {
